@@ -264,9 +264,6 @@ Definition with_imports (a : snap) (imp : list (text * list text)) : snap :=
   {| a_tns := a_tns a; a_name := a_name a; a_classes := a_classes a; a_deps := a_deps a;
      a_imports := imp; a_svcs := a_svcs a; a_pst := a_pst a |}.
 
-Lemma bindings_go_imp a imp l : forall f, bindings_go (with_imports a imp) f l = bindings_go a f l.
-Proof. induction l as [|s l IH]; intros f; simpl; auto. rewrite !IH. reflexivity. Qed.
-
 Theorem doc_det_thm perm1 perm2 a imp :
   (forall l, Permutation (perm1 l) l) -> (forall l, Permutation (perm2 l) l) ->
   imports_equiv (a_imports a) imp ->
@@ -287,8 +284,7 @@ Proof.
     destruct (add_all _ _ _); simpl; auto.
     change (a_imports (with_imports a imp)) with imp.
     rewrite (schemas_of_equiv _ _ _ EQ).
-    unfold bindings. change (a_svcs (with_imports a imp)) with (a_svcs a).
-    rewrite bindings_go_imp. reflexivity. }
+    reflexivity. }
   split; auto. unfold render. rewrite W. reflexivity.
 Qed.
 
